@@ -106,7 +106,7 @@ CLAIMED = {
               'tzm_open/tzm_find on well-formed compiled maps with symbolic keys return exactly the mapped zone, and any small '
               'file with the map magic is refused or looked up inside the image.'),
         note=('open/fstat/mmap/munmap/close stubbed; header counts concrete per query (a symbolic allocation size '
-              'needs 65 GB in cbmc); images <= 98 bytes quick / 128 thorough; zone map compiler not covered, map images <= 32 / 40 bytes; '
+              'needs 65 GB in cbmc); images <= 98 bytes quick / 128 thorough; zone map compiler not covered, map images <= 32 bytes; '
               'the unchecked loaders and a non-terminating map lookup were defects, fixed'),
         technique='CBMC memory-safety checking of the TZif loader on symbolic file images',
         design='3/C19'),
